@@ -18,7 +18,7 @@ Threads == 1..NT
 NItems == Len(Items)
 ItemOf(t, r) == ((t + r) % NItems) + 1        \* work item of thread t in round r (as in harness/threadrun.c)
 AccOf(t, r) == Items[ItemOf(t, r)].acc
-Cells == {0, 1} \X (0..25)
+Cells == {0, 1, 2} \X (0..25)      \* tables 0 and 1: the index tables; "table" 2: the OS calls of the file entry points (yield points, never stored to)
 \* the value a completed build leaves in a cell: the last store of the observed build
 LastStore(acc, c) == LET S == {k \in 1..Len(acc) : acc[k].s = 1 /\ acc[k].t = c[1] /\ acc[k].i = c[2]} IN
                      IF S = {} THEN 0 ELSE acc[CHOOSE k \in S : \A j \in S : j <= k].v
